@@ -229,3 +229,58 @@ func (c *Case) Describe(s *Sim) map[string]any {
 		"root_bumps": s.Stats.RootBumps, "commits": s.Stats.CommitsSeen, "byz_injected": s.Stats.ByzInjected, "adversary_acts": c.Adv.Acts, "trace": s.TraceHash(),
 	}
 }
+
+// RoundInfo describes one (height, root height, round) as the honest replicas saw it.
+type RoundInfo struct {
+	Key       string
+	Selected  map[int]int // honest replica -> validator index it voted for as proposer
+	FirstSeen int64
+}
+
+// HonestLed reports whether honest replicas holding at least the +2/3 threshold selected the same honest proposer.
+func (s *Sim) HonestLed(ri *RoundInfo) bool {
+	power := map[int]uint64{}
+	for r, p := range ri.Selected {
+		power[p] += s.Cfg.Powers[r]
+	}
+	for p, pw := range power {
+		if p >= 0 && !s.Cfg.Byzantine[p] && pw >= s.ValSet.MinimumMaj23 {
+			return true
+		}
+	}
+	return false
+}
+
+// Heal is GST: from now on every message between honest replicas arrives within a few virtual ms, paused replicas
+// resume, every replica learns the highest root height any of them has been told about (in-flight root updates are
+// delivered, no new ones start), and - if byzQuiet - the Byzantine keys stop acting.
+func (c *Case) Heal(s *Sim, byzQuiet bool) {
+	a := c.Adv
+	a.Healed, a.ByzQuiet = true, byzQuiet
+	maxRoot := s.Cfg.RootStart
+	for _, r := range s.Replicas {
+		if r != nil && r.rootVisible > maxRoot {
+			maxRoot = r.rootVisible
+		}
+	}
+	for _, e := range s.q {
+		if (e.kind == evRootVisible || e.kind == evRootReset) && e.root > maxRoot {
+			maxRoot = e.root
+		}
+	}
+	for _, i := range s.Honest() {
+		if r := s.Replicas[i]; r.rootReset < maxRoot && maxRoot > s.Cfg.RootStart {
+			s.BumpRoot(i, maxRoot, s.Rng.Int63n(5), s.Rng.Int63n(3))
+		}
+		s.Resume(i)
+	}
+	s.NoMoreBumps = true
+	s.HealedAt = s.Now
+	// a replica that already committed serves its certificate to the ones that fell behind (the node's block-sync path,
+	// which is outside the BFT rounds): whoever committed re-gossips once the network works again
+	for _, i := range s.Honest() {
+		if r := s.Replicas[i]; len(r.Chain) > 0 {
+			s.gossipBlock(i, r.Chain[len(r.Chain)-1])
+		}
+	}
+}
